@@ -241,4 +241,25 @@ theorem C31_context_restricted (ty ver h f r : Nat) (frozen : List Frozen.Entry)
 
 example : PolicyCtx.contextPolicies 2 0 4 2 6 [] [88, 79] [79] = .cc .frozen := by decide
 
+/-- **Every path into the context check** (regenerated): `ContextCheck` is called from exactly one
+    place, `BlockChain.CheckTransactionContext`, which hands it the caller's block height and the
+    chain's own parameters; and every caller of that function passes the height the transaction is
+    validated **for** — block validation the block's height, mempool admission and clean-up the
+    best height + 1, block assembly the next block height.  (The `e2e` ops execute the first three
+    paths and the RPC path on a real node.) -/
+theorem C31_gen_context_paths :
+    Gen.C31.contextCheckCallers = ["blockchain.BlockChain.CheckTransactionContext para"] ∧
+    Gen.C31.contextParameters = ["tx", "blockHeight", "timeStamp", "b.chainParams", "b", "proposalsUsedAmount"] ∧
+    Gen.C31.contextCallSites.all (fun s => ["block.Height", "bestHeight + 1", "nextBlockHeight"].contains s.2) = true ∧
+    (Gen.C31.contextCallSites.map (·.1)).contains "blockchain.BlockChain.checkTxsContext" = true ∧
+    (Gen.C31.contextCallSites.map (·.1)).contains "mempool.TxPool.appendToTxPool" = true := by decide
+
+/-- **No command-line route**: the two heights, the frozen list and the net name carry no `screw:`
+    tag, so no command-line flag is bound to them; the configuration file is the only way to set
+    them, and `SetupConfig` overrides it (`C31_gen_setup_order`). -/
+theorem C31_gen_no_cli_flags :
+    Gen.C31.policyFieldTags =
+      [("CrossChainUTXOFreezeHeight", ""), ("CrossChainUTXORestrictionHeight", ""),
+       ("FrozenAddresses", "json:\"FrozenAddresses\""), ("ActiveNet", "json:\"ActiveNet\"")] := by decide
+
 end ElaVerif.C31
